@@ -484,6 +484,35 @@ func checkLookups(view *preconfirmed.ChainReader, blocks []*mBlock, others []str
 			return n, fmt.Sprintf("lookup-wrong-block: receipt %s reported in block %d, lives in %d", h, bn, num)
 		}
 	}
+	// the per-entry accessors (what rpc trace / receipt handlers use once they hold an
+	// entry): every item of the entry's own block is found at its position, nothing else is
+	for e := range view.OldestFirst() {
+		own := map[string]bool{}
+		for i, tx := range e.Block.Transactions {
+			h := tx.Hash().String()
+			own[h] = true
+			got, at, err := e.TransactionByHash((*felt.TransactionHash)(tx.Hash()))
+			n++
+			if err != nil || got == nil || got.Hash().String() != h || (int(at) != i && e.Block.Transactions[at].Hash().String() != h) {
+				return n, fmt.Sprintf("lookup-missed: entry of block %d: its transaction %s (item %d of %d) not found by the entry's own lookup (%v)", e.Block.Number, h, i, len(e.Block.Transactions), err)
+			}
+			rc, err := e.ReceiptByHash((*felt.TransactionHash)(tx.Hash()))
+			n++
+			if err != nil || rc == nil || rc.TransactionHash.String() != h {
+				return n, fmt.Sprintf("lookup-missed: entry of block %d: receipt of its transaction %s (item %d) not found by the entry's own lookup (%v)", e.Block.Number, h, i, err)
+			}
+		}
+		for k, h := range others {
+			if own[h] || k > 24 {
+				continue
+			}
+			got, _, err := e.TransactionByHash((*felt.TransactionHash)(fs(h)))
+			n++
+			if err == nil || got != nil {
+				return n, fmt.Sprintf("lookup-phantom: entry of block %d: transaction %s is not in this block but the entry's own lookup returned it", e.Block.Number, h)
+			}
+		}
+	}
 	for _, h := range others {
 		if _, ok := in[h]; ok {
 			continue
